@@ -11,11 +11,38 @@ class Crate:
         self.prog.frozen = Frozen(self.prog)
         compute_summaries(self.prog)
         from .inline import inline_helpers
-        self.inlined = inline_helpers(self.prog.d["fns"], self.prog.summaries)
+        from .inline import unsafe_helper_candidates
+        fns = self.prog.d["fns"]
+        # phase 1: safe private helpers
+        self.inlined, self.inlined_away = inline_helpers(fns, self.prog.summaries, self.prog.pretty)
         self._an = {}
         self._fx = {}
         self.entry_facts_hook = None   # callable(crate, an) -> list of atoms
         self._inv = None
+        # phase 2: private helpers with unsafe operations whose obligations cannot be discharged where they are written
+        # (an `unsafe fn` taking a raw pointer, a helper relying on its callers' checks) are judged in their callers
+        cands = unsafe_helper_candidates(fns, self.prog.summaries, self.prog.pretty)
+        dirty = {g for g in cands if not self._helper_clean(g)}
+        if dirty:
+            done2, away2 = inline_helpers(fns, self.prog.summaries, self.prog.pretty, allow_unsafe=dirty)
+            for k, v in done2.items():
+                self.inlined.setdefault(k, []).extend(v)
+            self.inlined_away |= away2
+            self._an = {}
+            self._fx = {}
+            self._inv = None
+            for k in [k for k in self.__dict__ if k.endswith("_cache")]:
+                del self.__dict__[k]
+
+    def _helper_clean(self, path):
+        from .mem import inventory, discharge_site
+        try:
+            an = self.an(path)
+            sites = inventory(an)
+            fx = self.fx(path)
+            return all(discharge_site(s_, fx)[0] for s_ in sites)
+        except Exception:
+            return False
 
     def fn_paths(self):
         return [f["path"] for f in self.prog.d["fns"]]
